@@ -185,6 +185,16 @@ def summarize(exe, st, f, bb, callee, args, dest_ty):
             exe.write_ref(st, ref, [], VVec(el, vec.ety), f)
             return [(st, VUnit())]
         return None
+    if re.search(r"core::slice::<impl \[.*\]>::last_mut$", c) or re.search(r"core::slice::<impl \[.*\]>::last$", c):
+        ref = args[0]
+        v = _deref_all(exe, st, ref)
+        if isinstance(v, VSlice) and isinstance(v.vec, VVec):
+            v = v.vec
+        if isinstance(v, VVec):
+            if not v.elems:
+                return [(st, VAgg("Option::None", "None", []))]
+            return [(st, VAgg("Option::Some", "Some", [VRef("elem", ref, _u64(len(v.elems) - 1))]))]
+        return None
     if re.search(r"core::slice::<impl \[.*\]>::first_mut$", c) or re.search(r"core::slice::<impl \[.*\]>::first$", c):
         ref = args[0]
         v = _deref_all(exe, st, ref)
